@@ -156,6 +156,27 @@ def loadFile (keyID : String) (f : File) : Option State := f.bind (load keyID)
 /-- `OnChanged`: a failed reload is logged and leaves the previous generation in place -/
 def reload (keyID : String) (st : State) (f : File) : State := (loadFile keyID f).getD st
 
+/-! ## one key under several ids
+
+A key store file may list the very same private key more than once under different `X-Key-ID`s (the name a key had
+before a renaming and the new one; bundles concatenated from several sources).  `buildStore` makes an entry of every
+listing: each can be selected through its id (`GetKey`), and each is published under its id (`Entries()`, over which
+`load` collects the JWKs).  The variant below is NOT what the code does. -/
+
+/-- each key material once: a JWK whose public half was listed before (`seen`) is left out -/
+def distinctKeysFrom : List PubKey → List Jwk → List Jwk
+  | _, [] => []
+  | seen, j :: rest =>
+    if j.pub ∈ seen then distinctKeysFrom seen rest else j :: distinctKeysFrom (j.pub :: seen) rest
+
+def distinctKeys (js : List Jwk) : List Jwk := distinctKeysFrom [] js
+
+/-- variant of `load` for a key store whose `Entries()` lists every key material once — under the first of its ids —
+while `GetKey` still finds an entry under each id (seed s5/C16-a): selection, checks and active pair as in `load`, the
+published list thinned out -/
+def loadDistinct (keyID : String) (raw : List RawEntry) : Option State :=
+  (load keyID raw).map (fun st => { st with pubKeys := distinctKeys st.pubKeys })
+
 /-! ## claims (`Sign`) -/
 
 /-- claim values: strings and integers written by `Sign`, a freshly drawn identifier (`uuid.New()`), or whatever the
